@@ -236,6 +236,11 @@ structure BuildSound (E : Env) : Prop where
   zs : ∀ o x b, E.buildZstd o x = some b → E.decomp b.blob = some b.stream ∧ E.tocOf b.blob b.tocBlob = some b.tocJSON
   ll : ∀ o x b, E.buildLossless o x = some b → E.decomp b.blob = some b.stream ∧ E.tocOf b.blob b.tocBlob = some b.tocJSON
 
+/-- `VerifiableReader.VerifyTOC(d)` on a blob (with its external TOC blob, if any): accepted iff `d`
+is the digest of the TOC JSON that `Open` parsed. -/
+def verifyTOC (E : Env) (blob : Bytes) (ext : Option Bytes) (d : Digest) : Prop :=
+  ∃ toc, E.tocOf blob ext = some toc ∧ E.H toc = d
+
 /-! ## Descriptors and conversion -/
 
 structure Src where
